@@ -23,7 +23,9 @@ ASSUMPTIONS = [
     "non-termination is detected by a 120 s SIGALRM watchdog per case (the only place a timer feeds a verdict)",
     "NotImplementedError is a refusal, not a failure",
 ]
-EXCLUDE = ("KF-layout-drift-over-shuffle", "KF-minmax-empty")
+from vf import exclusions as _ex
+
+EXCLUDE = _ex.RAISES
 WATCHDOG_S = 120
 
 
